@@ -28,6 +28,11 @@ CONSTANTS
   BugCancelNoWake = FALSE
   BugRefill = FALSE
   BugNoClose = FALSE
+  Redis6 = FALSE
+  BugPurgeStop = FALSE
+  BugPendingExpires = FALSE
+  BugSkipEmbedded = FALSE
+  RaceFlight = FALSE
 INVARIANTS GenPrint
 CHECK_DEADLOCK FALSE
 CONSTANT WantFlags = {"doublereq"}
